@@ -1129,6 +1129,10 @@ func (sc *serverConn) handleFrame(strm *Stream, fr *FrameHeader) error {
 		strm.recvBody += len(data)
 
 		if sc.maxRequestBodySize > 0 && strm.recvBody > sc.maxRequestBodySize {
+			// The frame is dropped, but it has used connection window like any
+			// other, and the peer needs that back to go on with its other streams.
+			sc.consumeConnWindow(fr.Len())
+
 			return NewResetStreamError(EnhanceYourCalm, "request body is too large")
 		}
 
